@@ -4,23 +4,7 @@
 #include "harness/c14_vspec.c"
 #include "version.h"       /* the real /repo/src/include/version.h */
 
-extern int __CPROVER_errno;
-
-/* ---------------- version_is_compatible ---------------- */
-int w_want0, w_want1, w_want2, w_have0, w_have1, w_have2, w_alias;
-WITNESS(version_is_compatible);
-
-/* Statement: "accepted exactly when its major number equals the provider's and its
- * minor number is not greater (patch ignored)". */
-int c_version_is_compatible(int want[3], int have[3])
-__CPROVER_requires(__CPROVER_is_fresh(want, 3 * sizeof(int)))
-__CPROVER_requires(__CPROVER_pointer_equals(have, want) || __CPROVER_is_fresh(have, 3 * sizeof(int)))
-__CPROVER_requires(WBIND(version_is_compatible,
-	w_want0 == want[0] && w_want1 == want[1] && w_want2 == want[2] &&
-	w_have0 == have[0] && w_have1 == have[1] && w_have2 == have[2] && w_alias == (want == have)))
-__CPROVER_assigns()
-__CPROVER_ensures(__CPROVER_return_value == (VP_COMPAT(want[0], want[1], have[0], have[1]) ? 1 : 0))
-;
+#include "harness/c14_vcontract.c"
 
 void h_version_is_compatible(void)
 {
@@ -34,42 +18,6 @@ void h_version_is_compatible(void)
 	if (r == 0 && w_want0 != w_have0 && w_want1 <= w_have1) REACH("different major refused");
 	if (r == 1 && w_alias) REACH("a version is compatible with itself");
 }
-
-/* ---------------- version_parse ---------------- */
-char w_str[VP_N];
-int w_null;
-WITNESS(version_parse);
-#define VP_BIND(version) (w_null == ((version) == NULL) && ((version) == NULL || ( \
-	w_str[0] == (version)[0] && w_str[1] == (version)[1] && w_str[2] == (version)[2] && w_str[3] == (version)[3] && \
-	w_str[4] == (version)[4] && w_str[5] == (version)[5] && w_str[6] == (version)[6] && w_str[7] == (version)[7] && \
-	w_str[8] == (version)[8] && w_str[9] == (version)[9] && w_str[10] == (version)[10] && w_str[11] == (version)[11] VP_BIND_HI(version))))
-#if VP_N == 12
-#define VP_BIND_HI(version)
-#elif VP_N == 16
-#define VP_BIND_HI(version) && w_str[12] == (version)[12] && w_str[13] == (version)[13] && w_str[14] == (version)[14] && w_str[15] == (version)[15]
-#else
-#error "VP_N must be 12 or 16"
-#endif
-
-/* Statement: "malformed version strings are refused" (and, implicitly, well-formed
- * ones are understood).  Accepted exactly when well-formed; the three numbers strtol
- * converted are exactly the three components of the grammar and tuple[] holds their
- * decimal values (predicates in c14_vspec.c).  The strings of the lenient-parser
- * finding are carved out (vp_pre) -- group version_parse_actual proves what happens
- * on them.
- * The SAME declaration replaces version_parse in the callers' groups: everything a
- * caller must establish (terminated string, carve-out) is then asserted there. */
-int c_version_parse(const char *version, int tuple[3])
-__CPROVER_requires(vp_pre(version))
-__CPROVER_requires(__CPROVER_is_fresh(tuple, 3 * sizeof(int)))
-__CPROVER_requires(DIAG_PRE_LEAF)
-__CPROVER_requires(WBIND(version_parse, VP_BIND(version)))
-__CPROVER_assigns(__CPROVER_object_whole(tuple), __CPROVER_errno, DIAG_FRAME, MODEL_FRAME)
-__CPROVER_ensures(__CPROVER_return_value == 0 || __CPROVER_return_value == -1)
-__CPROVER_ensures(vp_post_iff(version, __CPROVER_return_value))
-__CPROVER_ensures(vp_post_numbers(version, __CPROVER_return_value, tuple))
-__CPROVER_ensures(__CPROVER_return_value == 0 || g_err > __CPROVER_old(g_err))
-;
 
 /* The exact language accepted at the pinned commit, no carve-out: documents the
  * finding precisely (accepted <=> spec_accepted) -- nothing outside L1..L4 slips in.
